@@ -923,6 +923,10 @@ Proof.
     + pose proof (len_le_alld _ cid d Hin') as Hl. rewrite Hall in Hl. unfold hist_small in Hsmall. lia.
 Qed.
 
+(* the same, as the statement about the variant the implementation is *)
+Theorem complete_impl : complete_under_hyps impl_variant.
+Proof. exact complete_fixed. Qed.
+
 (* ---------- non-vacuity ---------- *)
 Definition nonvac_hist : list op :=
   [HBatch [mkseg 1 false (repeat 0 3 ++ repeat 5 246 ++ [10])];
@@ -931,53 +935,6 @@ Definition nonvac_hist : list op :=
    HRead (Some 10) (Some 10);
    HDrop; HSync; HRead (Some 7) None; HServe;
    HBatch [mkseg 2 false (repeat 20 250)]].
-
-Fixpoint segs_discb (ids : list Z) (first : bool) (segs : list seg) : bool :=
-  match segs with
-  | [] => true
-  | sg :: tl =>
-      match sg_ts sg with
-      | [] => segs_discb ids first tl
-      | _ => (first && (match ids with [] => false | _ => last ids 0 =? sg_cid sg end) && segs_discb ids false tl)
-             || (forallb (fun c => c <? sg_cid sg) ids && segs_discb (ids ++ [sg_cid sg]) false tl)
-      end
-  end.
-Lemma segs_discb_ok segs : forall ids first, segs_discb ids first segs = true -> segs_disc ids first segs.
-Proof.
-  induction segs as [|sg tl IH]; intros ids first H; [exact I|]. cbn [segs_discb segs_disc] in *.
-  destruct (sg_ts sg); [apply IH; exact H|].
-  apply orb_true_iff in H as [H|H].
-  - left. apply andb_true_iff in H as [H H3]. apply andb_true_iff in H as [H1 H2].
-    split; [destruct first; [reflexivity|discriminate]|]. split; [|apply IH; exact H3].
-    unfold last_id. destruct ids; [discriminate|]. apply Z.eqb_eq in H2. rewrite H2. reflexivity.
-  - right. apply andb_true_iff in H as [H1 H2]. split; [|apply IH; exact H2].
-    intros c Hc. rewrite forallb_forall in H1. specialize (H1 c Hc). apply Z.ltb_lt in H1. exact H1.
-Qed.
-Fixpoint hist_discb (ids : list Z) (h : list op) : bool :=
-  match h with
-  | [] => true
-  | HBatch segs :: tl => segs_discb ids true segs && hist_discb (ids_after ids segs) tl
-  | _ :: tl => hist_discb ids tl
-  end.
-Lemma hist_discb_ok h : forall ids, hist_discb ids h = true -> hist_disc ids h.
-Proof.
-  induction h as [|o h IH]; intros ids H; [exact I|]. destruct o; cbn [hist_discb hist_disc] in *; try (apply IH; exact H).
-  apply andb_true_iff in H as [H1 H2]. split; [apply segs_discb_ok; exact H1|apply IH; exact H2].
-Qed.
-Fixpoint nwadb (dropped : bool) (h : list op) : bool :=
-  match h with
-  | [] => true
-  | HDrop :: tl => nwadb true tl
-  | HBatch _ :: tl => negb dropped && nwadb false tl
-  | HSync :: tl => nwadb false tl
-  | HRead _ _ :: tl => nwadb false tl
-  | HServe :: tl => nwadb dropped tl
-  end.
-Lemma nwadb_ok h : forall dropped, nwadb dropped h = true -> nwad dropped h.
-Proof.
-  induction h as [|o h IH]; intros dropped H; [exact I|]. destruct o; cbn [nwadb nwad] in *; try (apply IH; exact H).
-  apply andb_true_iff in H as [H1 H2]. split; [destruct dropped; [discriminate|reflexivity]|apply IH; exact H2].
-Qed.
 
 Lemma nonvac_ok : hist_sorted nonvac_hist /\ hist_disciplined nonvac_hist /\ no_write_after_drop nonvac_hist /\
   length (fst (range_read fixed_variant (run fixed_variant nonvac_hist) (Some 0) (Some 20))) = 1006%nat.
